@@ -255,6 +255,8 @@ class FaultBdd(BddMachine):
 
     def __init__(self, *a, reordering=None, forced=(), light=False, **kw):
         super().__init__(*a, **kw)
+        # the broken files mention x, y, z: a failing load may have declared them already
+        self.U = Universe(tuple(dict.fromkeys(tuple(self.names) + ('x', 'y', 'z'))))
         self.reordering = reordering
         self.forced = forced
         self.light = light
